@@ -141,7 +141,7 @@ func init() {
 		DesignRef: "DESIGN.md 3.12, 4 C12",
 		LevelText: "T.brace: every function of the template packages that emits code is abstractly interpreted with state = net braces/parens of the constant text it emits; branch conditions over never-reassigned locals are enumerated as atoms, switch arms are nondeterministic; all paths of a function must agree, loop bodies and root emitters must be balanced - this holds for all schemas, not only the corpus. GEN.*: the generator built from the working tree must answer every corpus schema (kind x shape matrix, 1..5-byte tags, interleaved oneofs, nesting/recursion, cross-package imports, well-known types, name collisions, sparse enums, the schemas embedded in the checked-in files) with sources that type-check (thorough: also GOARCH=386 and the full 12x17 map matrix), an unknown feature with an error, proto2 / unrequested files with no output. The emitted code is only analysed, never run; the codec engines of C01-C04/C06/C14 (SIZE, ENC, DEC, DET, UNK, BND) are applied to everything the working-tree generator emitted, so a template change that breaks a wire-format clause for some kind x shape x tag-width cell of the corpus is reported here as well. Not decided: totality for schemas outside the corpus beyond T.*; M/paths= parameter handling is protogen's.",
 		Engines:      E{tmpl.RunBrace, tmpl.RunNames, tmpl.RunImports, tmpl.RunKinds, tmpl.RunFlow, tmpl.RunDetPure, tmpl.RunS2, codec.RunSize, codec.RunEnc, codec.RunDec, refl.RunCoh},
-		RulePrefixes: []string{"COH.md", "COH.gotypes", "COH.depidx", "COH.builder", "COH.msgindex", "COH.msginfo", "COH.initchain", "COH.imports", "COH.pkgname", "COH.ext", "T.brace", "T.names", "T.imports", "T.kinds", "T.flow", "T.pure", "T.anchor", "GEN", "G.model", "G.anchor", "SIZE", "ENC", "DEC", "DET", "UNK.default", "BND"},
+		RulePrefixes: []string{"COH.md", "COH.gotypes", "COH.depidx", "COH.builder", "COH.msgindex", "COH.msginfo", "COH.initchain", "COH.imports", "COH.pkgname", "COH.ext", "COH.getter", "COH.pubfwd", "T.brace", "T.names", "T.imports", "T.kinds", "T.flow", "T.pure", "T.anchor", "GEN", "G.model", "G.anchor", "SIZE", "ENC", "DEC", "DET", "UNK.default", "BND"},
 		Floors: []core.Floor{
 			{Rule: "T.brace", Min: 60, Why: "emitting template functions"},
 			{Rule: "T.names", Min: 19, Why: "16 methods + 3 structure rules"},
@@ -363,9 +363,9 @@ func init() {
 		ID:        "C19",
 		Technique: "table agreement between the statically parsed descriptor and the generated Go tables/methods: raw descriptor vs request (regenerated code) and vs the parsed .proto sources (checked-in code), struct tags, TypeBuilder's flattened Go-type table and dependency indexes, per-message / per-enum table indexes, descriptor variables, type singletons, getters, Reset, enum maps (canonical-form comparison)",
 		DesignRef: "DESIGN.md 4 C19",
-		LevelText: "For every generated package (checked-in and regenerated corpus): the embedded raw descriptor equals the schema given to the generator byte-for-field (regenerated packages: proto.Equal against the request, options included; checked-in packages: proto.Equal against the .proto source next to each file, which the checker parses itself - names, numbers, kinds, labels, json names, oneof membership, map entries, nesting order, enums, services, imports and options including the cosmos_proto extension options; file options that buf managed mode adds are not compared); every struct tag agrees with its descriptor field (wire keyword, number, label, packed, name, oneof, map key/value tags) and the Go type with the kind; goTypes lists the enums then the messages in protobuf-go's flattened order, each bound to its own Go type (nil for map entries), depIdxs resolves every field dependency to the right entry and the TypeBuilder literal carries the right counts and tables; slowProtoReflect and Reset of message k use msgTypes[k] and enum k's String/Descriptor/Type/Number use enumTypes[k]; md_/fd_ variables resolve through the parent chain to the message's own descriptor and fields; the type singleton's New/Zero/Descriptor and the message's Type/Descriptor/New/Interface/ProtoReflect yield that same Go type; getters are nil-safe and return the mapped field (oneof getters assert the member's wrapper) with the kind's zero value; Reset zeroes *x; <Enum>_name/_value equal the descriptor's values; a file that publicly imports a file of another Go package forwards every schema symbol that file declares (types, enum constants, name/value maps, extension descriptors). Not decided: that String() text parses back (library) and registry lookups at run time (they follow from TypeBuilder under A3).",
-		Engines:      E{refl.RunCoh, refl.RunNil},
-		RulePrefixes: []string{"COH", "NIL.getter", "G.model", "G.anchor", "GEN.build"},
+		LevelText: "For every generated package (checked-in and regenerated corpus): the embedded raw descriptor equals the schema given to the generator byte-for-field (regenerated packages: proto.Equal against the request, options included; checked-in packages: proto.Equal against the .proto source next to each file, which the checker parses itself - names, numbers, kinds, labels, json names, oneof membership, map entries, nesting order, enums, services, imports and options including the cosmos_proto extension options; file options that buf managed mode adds are not compared); every struct tag agrees with its descriptor field (wire keyword, number, label, packed, name, oneof, map key/value tags) and the Go type with the kind; goTypes lists the enums then the messages in protobuf-go's flattened order, each bound to its own Go type (nil for map entries), depIdxs resolves every field dependency to the right entry and the TypeBuilder literal carries the right counts and tables; slowProtoReflect and Reset of message k use msgTypes[k] and enum k's String/Descriptor/Type/Number use enumTypes[k]; md_/fd_ variables resolve through the parent chain to the message's own descriptor and fields; the type singleton's New/Zero/Descriptor and the message's Type/Descriptor/New/Interface/ProtoReflect yield that same Go type; getters are nil-safe and return the mapped field (oneof getters assert the member's wrapper) with the kind's zero value; Reset zeroes *x; <Enum>_name/_value equal the descriptor's values; Range visits every populated field exactly once (ACC.range: String(), which is built on Range, would otherwise print a field twice and the text would not parse back); a file that publicly imports a file of another Go package forwards every schema symbol that file declares (types, enum constants, name/value maps, extension descriptors). Not decided: that String() text parses back (library) and registry lookups at run time (they follow from TypeBuilder under A3).",
+		Engines:      E{refl.RunCoh, refl.RunNil, refl.RunAcc},
+		RulePrefixes: []string{"COH", "NIL.getter", "ACC.range", "G.model", "G.anchor", "GEN.build"},
 		Floors: []core.Floor{
 			{Rule: "COH.rawdesc", Min: 15, Why: "generated files"},
 			{Rule: "COH.legacy", Min: 15, Why: "generated files"},
